@@ -338,10 +338,14 @@ def qd_run(ctx):
                 if s_['k'] == 'assign' and s_['pl']['p'] and 'sync.ready' in H.held_before(bb, i) and s_['rv']['k'] == 'use' and s_['rv']['op']['k'] == 'const':
                     sets.append((bb, str(s_['rv']['op'].get('val'))))
         notifies = [bb for bb, t in ud.calls() if (t['func'].get('fn') or '').endswith(('Condvar::notify_all', 'Condvar::notify_one'))]
-        takes = [(bb, t) for bb, t in ud.calls() if (t['func'].get('fn') or '') == 'core::option::Option::take']
+        from .facts import render as _render
+        takes = [(bb, t) for bb, t in ud.calls() if t['args'] and t['args'][0]['k'] != 'const' and 'on_finish' in _render(ud.expr_of_operand(t['args'][0]))
+                 and 'Option' in clean_ty(ud.local_ty(t['dest']['l']))]
         e = result_edges(ud, takes[0][0]) if len(takes) == 1 else None
         some = edge_for(e, 'core::option::Option', 'Some') if e else None
-        if not sets or not notifies or some is None:
+        if some is None and sets and notifies:
+            out.append(undecided(R, key, 'test of the optional notification not recognised'))
+        elif not sets or not notifies or some is None:
             out.append(bad(R, key, 'dropping an UnsafeJob no longer sets the finished flag and notifies the waiting sync caller', fn=ud.name))
         elif any(v != '1' for bb, v in sets):
             out.append(bad(R, key, 'the finished flag is set to false: the sync caller waiting for this job never sees it finish', fn=ud.name))
